@@ -7,7 +7,9 @@ import (
 	"fmt"
 	"go/ast"
 	"go/token"
+	"go/types"
 	"strconv"
+	"strings"
 )
 
 func init() { extractParts = append(extractParts, extractIDs) }
@@ -94,4 +96,46 @@ func renderCalls(x ast.Expr) string {
 		return v.Name
 	}
 	return "?"
+}
+
+func init() { extractParts = append(extractParts, extractZeroCalls) }
+
+// callSites: every call of the package-level function fn in the builder sources, arguments as written.
+func callSites(e *extractor, fn string) (rows []string, shown []string) {
+	for _, name := range []string{"builder/struct.go", "builder/pointer.go", "builder/list.go", "builder/map.go", "builder/default.go", "builder/underlying.go", "builder/basic.go", "builder/skipcopy.go", "builder/enum.go"} {
+		f := e.file(name)
+		if f == nil {
+			continue
+		}
+		ast.Inspect(f, func(n ast.Node) bool {
+			call, ok := n.(*ast.CallExpr)
+			if !ok {
+				return true
+			}
+			id, ok := call.Fun.(*ast.Ident)
+			if !ok || id.Name != fn {
+				return true
+			}
+			var args []string
+			var plain []string
+			for _, a := range call.Args {
+				args = append(args, runes(types.ExprString(a)))
+				plain = append(plain, types.ExprString(a))
+			}
+			rows = append(rows, " "+coqList(args))
+			shown = append(shown, "("+strings.Join(plain, ", ")+")")
+			return true
+		})
+	}
+	return rows, shown
+}
+
+// extractZeroCalls: every call of builder.shouldCheckAgainstZero with its argument expressions as written (the category
+// of the zero check is the one of the SOURCE field: the model passes (source, target) in this order, so must the code),
+// and every call of mapField (the error path it gets is the path of the FIELD, not of the enclosing struct).
+func extractZeroCalls(e *extractor) {
+	rows, shown := callSites(e, "shouldCheckAgainstZero")
+	fmt.Fprintf(&e.out, "\n(* calls of builder.shouldCheckAgainstZero, arguments as written: %s *)\nDefinition x_zero_check_calls : list (list rstr) := [\n%s\n].\n", strings.Join(shown, " "), strings.Join(rows, ";\n"))
+	rows, shown = callSites(e, "mapField")
+	fmt.Fprintf(&e.out, "(* calls of builder.mapField, arguments as written: %s *)\nDefinition x_mapfield_calls : list (list rstr) := [\n%s\n].\n", strings.Join(shown, " "), strings.Join(rows, ";\n"))
 }
